@@ -1270,3 +1270,121 @@ func ruleC07FunctionOnThunk(c *Ctx) {
 	}
 	c.Check(len(why) == 0, "c07.function-on-thunk", "ReaderExecutor", c.P.Pos(f.Pos()), fmt.Sprintf("%d paths apply the function, none to an unevaluated thunk", n), strings.Join(uniq(why), "; "))
 }
+
+func init() { register("C17", ruleC17BacktickDoubled) }
+
+// ruleC17BacktickDoubled: a backtick inside a double-quoted identifier survives the change of delimiter.
+func ruleC17BacktickDoubled(c *Ctx) {
+	c.Doc("c17.backtick-doubled", "quote rewriter (DoubleQuotesToBackTick), double-quote region: the region is re-delimited with backticks, so a backtick byte of the identifier is written twice (a comparison of the region's byte with '`' whose true branch writes an extra '`'); copied as it is, \"x`y\" becomes `x`y`, a syntax error")
+	f := c.P.Func(modPath, "DoubleQuotesToBackTick")
+	if f == nil {
+		c.Unknown("c17.backtick-doubled", "DoubleQuotesToBackTick", "-", "anchor lost")
+		return
+	}
+	// the double-quote region loop: the inner loop whose blocks compare a byte with '"' (34)
+	var region *ssa.BasicBlock
+	hs := loopHeaders(f)
+	for _, h := range hs {
+		inner := false
+		for _, o := range hs {
+			if o != h && inNaturalLoop(o, h) {
+				inner = true
+			}
+		}
+		if !inner {
+			continue
+		}
+		for _, b := range f.Blocks {
+			if b != h && !inNaturalLoop(h, b) {
+				continue
+			}
+			for _, in := range b.Instrs {
+				if bo, ok := in.(*ssa.BinOp); ok && (bo.Op == token.EQL || bo.Op == token.NEQ) {
+					if k, isK := constIntOf(bo.Y); isK && k == 34 {
+						region = h
+					}
+				}
+			}
+		}
+	}
+	if region == nil {
+		c.Unknown("c17.backtick-doubled", "DoubleQuotesToBackTick/\"-region", c.P.Pos(f.Pos()), "anchor lost: no inner loop that compares with the double quote")
+		return
+	}
+	doubled := false
+	for _, b := range f.Blocks {
+		if !inNaturalLoop(region, b) || len(b.Instrs) == 0 {
+			continue
+		}
+		iff, ok := b.Instrs[len(b.Instrs)-1].(*ssa.If)
+		if !ok {
+			continue
+		}
+		bo, ok := iff.Cond.(*ssa.BinOp)
+		if !ok || bo.Op != token.EQL {
+			continue
+		}
+		if k, isK := constIntOf(bo.Y); !isK || k != 96 {
+			continue
+		}
+		for _, in := range b.Succs[0].Instrs {
+			if call, isCall := in.(*ssa.Call); isCall {
+				name := calleeName(call.Common())
+				if strings.HasSuffix(name, ".WriteByte") || strings.HasSuffix(name, ".WriteRune") {
+					if k, isK := constIntOf(call.Common().Args[len(call.Common().Args)-1]); isK && k == 96 {
+						doubled = true
+					}
+				}
+			}
+		}
+	}
+	c.Check(doubled, "c17.backtick-doubled", "DoubleQuotesToBackTick/\"-region", c.P.Pos(region.Instrs[0].Pos()), "a backtick of the identifier is written twice", "a backtick inside a double-quoted identifier is copied as it is into the backtick-delimited identifier: `SELECT a AS \"x`y\" FROM t` fails with a syntax error under PostgresEscapingDialect while the backtick spelling works")
+}
+
+func init() { register("C17", ruleC17BracketEscapeScope) }
+
+// ruleC17BracketEscapeScope: in the bracket locator a backslash escapes only inside a string literal.
+func ruleC17BracketEscapeScope(c *Ctx) {
+	c.Doc("c17.bracket-escape-scope", "bracket locator (FindArrayIndex): the skip of the byte after a backslash is reachable only while a string quote is open and that quote is not the backtick (dominated by a test of the open quote against '`'): inside a backtick identifier, and outside any quote, a backslash is an ordinary character for the tokenizer — skipping the closing backtick after `x\\` leaves the locator in identifier mode and the array literals that follow are not rewritten")
+	f := c.P.Func(modPath, "FindArrayIndex")
+	if f == nil {
+		c.Unknown("c17.bracket-escape-scope", "FindArrayIndex", "-", "anchor lost")
+		return
+	}
+	n, bad := 0, ""
+	allInstrs(f, func(b *ssa.BasicBlock, in ssa.Instruction) {
+		bo, ok := in.(*ssa.BinOp)
+		if !ok || bo.Op != token.ADD {
+			return
+		}
+		if k, isK := constIntOf(bo.Y); !isK || k != 1 {
+			return
+		}
+		inBackslashArm, scoped := false, false
+		for _, fc := range relFacts(factsAt(b)) {
+			k, isK := constIntOf(fc.y)
+			if !isK {
+				continue
+			}
+			if k == 92 && fc.r == relEQ {
+				inBackslashArm = true
+			}
+			if k == 96 && fc.r == relNE {
+				scoped = true
+			}
+		}
+		if !inBackslashArm {
+			return
+		}
+		n++
+		if !scoped {
+			bad = "the byte after a backslash is skipped at " + c.P.Pos(bo.Pos()) + " whatever quote is open: inside a backtick identifier the closing backtick can be skipped (`x\\`) and the brackets that follow are not rewritten"
+		}
+	})
+	c.Check(n > 0 && bad == "", "c17.bracket-escape-scope", "FindArrayIndex", c.P.Pos(f.Pos()), fmt.Sprintf("%d escape skips, only inside a non-backtick quote", n), func() string {
+		if bad != "" {
+			return bad
+		}
+		return "no escape skip found in the backslash arm"
+	}())
+}
